@@ -115,6 +115,13 @@ contract(T + ".replicate", "C20", params={"mutations": "opt:dict:str,any"}, ghos
                   "child-is-a-new-genome": "result is not self"})
 
 
+# ---------------------------------------------------------------- construction: the authorisation settings are the caller's
+contract(T + ".__init__", "C20", is_init=True, params={"genes": "none", "on_mutation": "opt:callback"}, raises=[],
+         ensures={"authorisation-settings-are-stored-as-given": "self.allow_mutations == allow_mutations and "
+                                                                "(on_mutation is None) == (self.on_mutation is None)",
+                  "starts-without-history": "len(self._mutations) == 0 and len(self._genes) == 0"})
+
+
 def native_replay(rep):
     import os, sys
     sys.path.insert(0, os.path.dirname(os.path.dirname(os.path.abspath(__file__))))
